@@ -62,7 +62,9 @@ BaseU == <<
   IntV(5), Nil, Bool(FALSE), Flt(5, 2),
   MapV(<< <<B_first, S(<<102>>)>>, <<Cc, Nil>> >>),
   \* keys named like the built-in properties, bound to nil: present, so no fallback
-  MapV(<< <<Bb, IntV(1)>>, <<B_size, Nil>>, <<Xx, Nil>> >>)
+  MapV(<< <<Bb, IntV(1)>>, <<B_size, Nil>>, <<Xx, Nil>> >>),
+  \* arrays that hold nil: printed whole they are a value (strict mode objects to a nil final value only)
+  Arr(<<IntV(1), Nil, IntV(2)>>), Arr(<<Nil>>), MapV(<< <<Bb, Arr(<<Nil, IntV(3)>>)>> >>)
 >>
 Paths(b) == <<
   P(b, Bb), Ix(b, Lit(S(Bb))), P(b, B_size), P(b, B_first), P(b, B_last),
